@@ -13,7 +13,7 @@ use zkryptium::schemes::algorithms::BBSplus;
 use zkryptium::schemes::generics::{BlindSignature, Commitment, PoKSignature, Signature};
 
 pub trait Sx: 'static + Send + Sync {
-    type CS: BbsCiphersuite;
+    type CS: BbsCiphersuite + Clone + std::fmt::Debug + Send + Sync;
     const ID: SuiteId;
 }
 pub struct Sha;
